@@ -7,9 +7,10 @@ R4 writers print what was summed.
 import ast
 
 from sa import callgraph, typestate
-from sa.astutil import (call_name, calls_in, dotted, norm, walk_no_nested, last_attr,
+from sa.astutil import (func_params, facts_at, call_name, calls_in, dotted, norm, walk_no_nested, last_attr,
                         try_fold, format_fields, concat_str, enclosing_loops)
 from sa.loader import AnalysisError
+from sa.canon import canon
 from checks import common
 
 BOUNDARIES = [
@@ -243,6 +244,46 @@ def run(ctx):
     ctx.ob('C02.R4', 'determinant-row:pKa-column', ok,
            'the pKa column of the determinant table prints pka_value with two decimals', gmod,
            pk[0] if pk else ds)
+    # both sections list the same groups: selected by residue type (and, in the
+    # determinant table, by chain) and by nothing else
+    omod = prog.mod('output')
+    for sec_name, meth, may_chain in (('get_determinant_section', 'get_determinant_string', True),
+                                      ('get_summary_section', 'get_summary_string', False)):
+        sec = omod.func(sec_name)
+        scan = canon(sec)
+        emits = [c for c in calls_in(sec, nested=False) if last_attr(c) == meth]
+        kinds = []
+        ok = len(emits) == 1
+        if ok:
+            for e, pol in facts_at(emits[0], sec):
+                t = scan.text(e)
+                if pol and t.endswith('.residue_type == each(parameters.write_out_order)'.replace(
+                        'parameters', func_params(sec)[2])):
+                    kinds.append('residue-type')
+                else:
+                    kinds.append('other: %s%s' % ('' if pol else 'not ', t[:80]))
+            # the list the emitting loop runs over
+            loops = [n for n in ast.walk(sec) if isinstance(n, ast.For)
+                     and any(emits[0] is x for x in ast.walk(n))]
+            inner = loops[-1] if loops else None
+            src = scan.expr(inner.iter) if inner is not None else None
+            flt = []
+            if isinstance(src, ast.ListComp):
+                for g in src.generators:
+                    for cond in g.ifs:
+                        flt.append(norm(cond))
+                src_iter = norm(src.generators[0].iter) if len(src.generators) == 1 else '?'
+            else:
+                src_iter = norm(src) if src is not None else '?'
+            groups_ok = src_iter.endswith('.conformations[%s].groups' % func_params(sec)[1])
+            flt_ok = all(may_chain and f.endswith('.atom.chain_id == each(%s.conformations[%s].chains)'
+                                                  % (func_params(sec)[0], func_params(sec)[1]))
+                         for f in flt)
+            ok = kinds == ['residue-type'] and groups_ok and flt_ok
+        ctx.ob('C02.R4', 'section-lists-every-group:' + sec_name, ok,
+               '%s prints every group of the conformation whose residue type is in '
+               'write_out_order, selected by nothing else (conditions: %s)' % (sec_name, kinds),
+               omod, emits[0] if emits else sec)
     ss = gmod.func('Group.get_summary_string')
     fmts = []
     for r_ in walk_no_nested(ss):
